@@ -2,4 +2,4 @@ SPECIFICATION MCSpec
 CONSTANTS Keys = {1, 2, 3, 4, 5, 6, 7}
 VIEW View
 INVARIANTS TypeOK SearchTreeOrder TreeIsAllNodes ListIsInOrder CountOK
-PROPERTY Refines
+PROPERTY RefinesDirected
